@@ -32,6 +32,11 @@ Classes of inputs added by the audit after the third round of seeded changes (ev
   series it got with store=False; refused loads (missing file, file already registered, alone or inside a list) followed by
   valid calls; several files in one database that share a base name (other directory) or a format (other layout, other name
   of the .mat time array);
+* aliasing between the series of one read (fourth round): the caller CHANGES a series it was handed, also one the database holds
+  (op `touch`: `set_dtg_ref` given and moved / moved to the first sample, which shifts the time array of that series; time or data
+  arrays changed in place); immediately afterwards every OTHER series the database holds, and in later requests every other series
+  (cached, uncached, never read), must be what the file holds.  The changed object itself is exempt from the value clause (not
+  from the name clause) for as long as the database hands out that very object; the model sees a `touch` as the `get` it starts with;
 * crashes: a load of a readable file or a request for registered series that raises is a failing clause; an exception anywhere in
   the evaluation of a history is reported with the history as failing input.
 """
@@ -77,7 +82,11 @@ RULE = ("files: per format 4 (quick) / 6 (thorough) synthesised files with 1-5 s
         "quarters of the random histories and a third of the subset histories with calls in another spelling (positional, defaults "
         "omitted, tuple / bare string / bare integer / ndarray / negative index, file names as list / tuple / relative / wildcard, "
         "<file>/<name> requests, refused loads of missing files), one in eight with a second database on the same files in between, "
-        "uncached results overwritten by the caller")
+        "uncached results overwritten by the caller; fourth round: op `touch` = get one series and change it as a caller may "
+        "(set_dtg_ref set+moved / set+moved to the first sample, t += 64 in place, both arrays overwritten, x negated), then audit every "
+        "other series held by the database: 14% of the ops of the random histories, one in every multi-file history, and per format "
+        "8 (quick) histories + one per feature file in which >= 2 series are read in ONE call (getm/getl/getda/getd by names, indices or "
+        "'*', or eager load), one is touched, the others are asked for one by one / by '*' / by index, a second one is touched")
 
 TDA_KEY_HEAD = """** Info about series written by SIMO-S2XMOD
 ** 26-NOV-2016 20:59
@@ -804,6 +813,12 @@ def gen_history(rng, specs, maxops=6, plain=False):
             ops.append(["load", "missing", False] if not todo or rng.random() < 0.5 else
                        ["load", [todo[0], rng.choice(["missing", loaded[0]])], False, dict(form="list")])
             continue
+        if r < 0.14 and not plain:
+            # the caller changes a series it is handed (see `touch`); the other series must not notice
+            fi = rng.choice(loaded)
+            ops.append(["touch", ["name", ["key", fi, rng.randrange(len(specs[fi]["names"]))]], rng.random() < 0.7,
+                        dict(kind=rng.choice(TOUCH_KINDS))])
+            continue
         store = rng.random() < 0.6
         api = rng.choice(["getm", "getm", "getd", "getl", "getda", "get", "geta"])
         if not plain and rng.random() < 0.15:
@@ -871,6 +886,37 @@ def sweep_history(spec, rng):
     return ops
 
 
+def touch_history(spec, rng):
+    """several series of one file are read in ONE call and cached (or the file is loaded eagerly); the caller then changes one of
+    the series it is handed (date-time reference set and moved / arrays changed in place); the others -- asked for afterwards by name,
+    index and wildcard, cached and uncached, and those never read so far -- carry what the file holds.  Then the same with a second
+    series and another kind of change."""
+    names = spec["names"]
+    k = len(names)
+    order = list(range(k))
+    rng.shuffle(order)
+    first = order[:max(2, k - 1)]                                # (one name is left unread where there are three or more)
+    kinds = rng.sample(TOUCH_KINDS, 2)
+    if "dtg2" not in kinds and "dtg0" not in kinds:
+        kinds[0] = rng.choice(["dtg2", "dtg0"])
+    ops = [["load", 0, rng.random() < 0.25]]
+    api = rng.choice(["getm", "getl", "getda", "getd"])
+    sel = ["names", [["lit", names[j]] for j in first]] if rng.random() < 0.6 else ["ind", list(first)]
+    if rng.random() < 0.2:
+        sel = ["names", [["lit", "*"]]]
+    ops.append([api, sel, True, FORCED_FULL.get(api, rng.random() < 0.5)])
+    ops.append(["touch", ["name", ["key", 0, first[0]]], rng.random() < 0.7, dict(kind=kinds[0])])
+    for j in order[::-1]:
+        if j != first[0]:
+            ops.append([rng.choice(["get", "geta"]), rng.choice([["name", ["lit", names[j]]], ["ind", j]]), rng.random() < 0.5])
+    ops.append(["getm", ["names", None], False, True])
+    if k > 1:
+        ops.append(["touch", ["name", ["key", 0, first[1]]], rng.random() < 0.7, dict(kind=kinds[1])])
+    ops.append(["getl", ["ind", list(range(k))[::-1]], True, False])
+    ops.append(["getm", ["names", [["key", 0, j] for j in order]], rng.random() < 0.5, True])
+    return ops
+
+
 def restyle(rng, ops, prob=0.5):
     """the same history with some of the calls written another way (see gen_style / gen_load_style)"""
     out = []
@@ -888,7 +934,7 @@ def restyle(rng, ops, prob=0.5):
         elif op[0] in ("get", "geta"):
             if len(op) == 3 and rng.random() < prob:
                 op.append(gen_style(rng, op[0], op[1], op[2]))
-        elif len(op) == 4 and rng.random() < prob:
+        elif op[0] != "touch" and len(op) == 4 and rng.random() < prob:
             op.append(gen_style(rng, op[0], op[1], op[2]))
         out.append(op)
     return out
@@ -932,6 +978,7 @@ def pair_history(specs, rng):
     pos = {fj: i for i, fj in enumerate(keys)}
     ops.append(["getm", ["names", [["key", fi, j] for fi, j in mixed]], False, True])
     ops.append(["getl", ["ind", [pos[fj] for fj in mixed[::-1]]], rng.random() < 0.5, False])
+    ops.append(["touch", ["name", ["key"] + list(rng.choice(keys))], True, dict(kind=rng.choice(TOUCH_KINDS))])
     for fi, j in mixed[::2]:
         ops.append([rng.choice(["get", "geta"]), ["name", ["key", fi, j]], rng.random() < 0.5])
     ops.append(["getda", ["names", [["key", fi, j] for fi, j in mixed[1::2]] or [["key", 0, 0]]], True, True])
@@ -982,7 +1029,7 @@ def op_store(op):
 
 
 def op_style(op):
-    n = 3 if op[0] in ("load", "get", "geta") else 4
+    n = 3 if op[0] in ("load", "get", "geta", "touch") else 4
     return op[n] if len(op) > n and isinstance(op[n], dict) else {}
 
 
@@ -1032,7 +1079,7 @@ def encode(specs, paths, ops):
             continue
         sel, store = op[1], op_store(op)
         nrec.append(1)
-        if op[0] in ("get", "geta"):
+        if op[0] in ("get", "geta", "touch"):             # (touch: a get; what the caller does to the series afterwards is not modelled)
             if sel[0] == "name":
                 toks.append("get %d n %s" % (store, hx(resolve(sel[1], specs, paths))))
             else:
@@ -1147,6 +1194,37 @@ def scribble(db, objs):
                 pass
 
 
+TOUCH_KINDS = ["dtg2", "dtg0", "tshift", "fill", "xneg"]
+
+
+def touch(ts, kind):
+    """what a caller may do with a series it was handed (whether or not the database holds that very object): give it a date-time
+    reference and move the reference (the documented `set_dtg_ref`, which shifts the time array of THAT series), or change its
+    arrays in place"""
+    from datetime import datetime
+    if kind == "dtg2":
+        ts.set_dtg_ref(datetime(2020, 1, 1, 12, 0, 0))
+        ts.set_dtg_ref(datetime(2020, 1, 1, 11, 0, 0))          # corrected by one hour: t += 3600
+    elif kind == "dtg0":
+        ts.set_dtg_ref(datetime(2020, 1, 1, 12, 0, 0))
+        ts.set_dtg_ref()                                        # reference moved to the first sample: t -= t[0]
+    elif kind == "tshift":
+        ts.t[...] += 64.0
+    elif kind == "fill":
+        ts.t[...] = -7777.0
+        ts.x[...] = -7777.0
+    elif kind == "xneg":
+        ts.x *= -1.0
+    else:
+        raise ValueError(kind)
+
+
+def tainted(state, key):
+    """the object the database holds under `key` is one the caller has changed (its content is the caller's business)"""
+    held = state["db"].register.get(key)
+    return held is not None and any(held is o for o in state.get("touched", ()))
+
+
 def call(state, op, specs, paths):
     """one operation on the real database -> 'done' | 'err kind' | list of (container key | None, name | None, t, x)"""
     from qats import TsDB
@@ -1172,6 +1250,10 @@ def call(state, op, specs, paths):
 
         def arr(ts):
             return np.array(ts.t), np.array(ts.x)
+        if api == "touch":
+            out = db.get(name=names, **skw)
+            state["handed"] = out                               # (changed by the caller after the outcome has been looked at)
+            return [(None, out.name) + arr(out)]
         if api in ("get", "geta"):
             f = getattr(db, api)
             if st.get("pos"):
@@ -1299,8 +1381,9 @@ def execute(specs, paths, ops, model=None, chk=None, inp=None, verbose=False, nr
         if verbose:
             print("FAILS:", text, "| expected", expected, "| observed", observed)
 
-    def check_series(upto, ident, item, how):
-        """oracle: the series identified as (file, column) carries what the generator wrote"""
+    def check_series(upto, ident, item, how, st8=None):
+        """oracle: the series identified as (file, column) carries what the generator wrote (time and data: unless it is the very
+        object the caller of this database has changed itself)"""
         fi, j = ident
         k, nm, t, x = item
         sp = specs[fi]
@@ -1311,6 +1394,8 @@ def execute(specs, paths, ops, model=None, chk=None, inp=None, verbose=False, nr
         if nm is not None and nm != wn:
             fail("a series obtained from a file-backed database carries the name it is registered under", upto, wn, nm, clause="name",
                  fmt=sp["fmt"], how=how)
+        if st8 is not None and tainted(st8, paths[fi] + os.path.sep + wn):
+            return
         if close(t, wt, tol) and close(x, wx, tol):
             return
         if sp["fmt"] == "asc" and close(t, wt[1:], tol) and close(x, wx[1:], tol):
@@ -1347,7 +1432,7 @@ def execute(specs, paths, ops, model=None, chk=None, inp=None, verbose=False, nr
                         if ts is None:
                             fail("load(read=True) reads and stores every series of the file", upto, "cached", "None", clause="eager")
                         else:
-                            check_series(upto, (fi, j), (None, ts.name, np.array(ts.t), np.array(ts.x)), "eager load" + who)
+                            check_series(upto, (fi, j), (None, ts.name, np.array(ts.t), np.array(ts.x)), "eager load" + who, st8)
             return
         exp = simple_expectation(op, specs, paths, ldd)
         if isinstance(res, list):
@@ -1359,15 +1444,17 @@ def execute(specs, paths, ops, model=None, chk=None, inp=None, verbose=False, nr
                          [specs[fi]["names"][j] for fi, j in exp], [it[1] or it[0] for it in res], clause="selection", how=who)
                 else:
                     for ident, it in zip(exp, res):
-                        check_series(upto, ident, it, "by construction" + who)
+                        check_series(upto, ident, it, "by construction" + who, st8)
             for it in res:
                 if it[0] is not None:
                     if it[0] in keymap:
-                        check_series(upto, keymap[it[0]], it, "container key" + who)
+                        check_series(upto, keymap[it[0]], it, "container key" + who, st8)
                     else:
                         fail("container keys are registered keys", upto, "one of the registered keys", it[0], clause="key")
         elif res != "done":
-            if exp is not None and (op[0] not in ("get", "geta") or len(exp) == 1):
+            if op[0] == "getdf" and any(tainted(st8, k) for k in keymap):
+                return                  # (a common time array is to_dataframe's own requirement; the caller has changed one)
+            if exp is not None and (op[0] not in ("get", "geta", "touch") or len(exp) == 1):
                 fail("a request for registered series succeeds", upto, [specs[fi]["names"][j] for fi, j in exp], res, clause="error",
                      how=who)
             elif exp is None and op[0] in ("getm", "getd", "getl", "getda", "copy", "update", "app_read") and op[1][0] == "names":
@@ -1381,6 +1468,21 @@ def execute(specs, paths, ops, model=None, chk=None, inp=None, verbose=False, nr
                     fail("a request for registered series succeeds", upto, [k.split(os.path.sep)[-1] for k in sel], res,
                          clause="error", how="by pattern" + who)
 
+    def after_touch(st8, op, upto, who):
+        """the caller changes the series it was just handed; every OTHER series the database holds is still what the file holds"""
+        ts = st8.pop("handed", None)
+        if ts is None:
+            return
+        touch(ts, op_style(op).get("kind", "dtg2"))
+        st8.setdefault("touched", []).append(ts)
+        db = st8["db"]
+        for k in db.register_keys:
+            held = db.register.get(k)
+            if held is not None and k in keymap and not tainted(st8, k):
+                check_series(upto, keymap[k], (None, held.name, np.array(held.t), np.array(held.x)),
+                             "held by the database, after the caller changed ANOTHER series it was handed (%s)%s" % (
+                                 op_style(op).get("kind", "dtg2"), who), st8)
+
     cwd = os.getcwd()
     try:
         os.chdir(os.path.dirname(os.path.dirname(paths[0])))      # relative file names are relative to this directory
@@ -1389,9 +1491,12 @@ def execute(specs, paths, ops, model=None, chk=None, inp=None, verbose=False, nr
             if shadow is not None and n < len(shadow):
                 res2 = call(state2, shadow[n], specs, paths)
                 oracles(state2, shadow[n], res2, loaded2, n + 1, " (second database on the same files)")
+                after_touch(state2, shadow[n], n + 1, " (second database on the same files)")
             res = call(state, op, specs, paths)
             db = state["db"]
             oracles(state, op, res, loaded, n + 1, "")
+            changed = set(k for k in keymap if tainted(state, k))      # (before this op's own change: its outcome was taken first)
+            after_touch(state, op, n + 1, "")
             cached = [k for k in db.register_keys if db.register.get(k) is not None]
             # ---- correspondence with the model
             if model is not None:
@@ -1412,6 +1517,8 @@ def execute(specs, paths, ops, model=None, chk=None, inp=None, verbose=False, nr
                         tol = tol_of(specs[fi]["fmt"])
                         if (k is not None and k != mk) or (nm is not None and nm != mn):
                             same = False
+                        elif mk in changed:
+                            pass                    # the object the caller has changed: not what the model describes
                         elif not (close(t, mt, tol) and close(x, mx, tol)):
                             if specs[fi]["fmt"] == "asc" and close(t, mt[1:], tol) and close(x, mx[1:], tol):
                                 f15 = True          # known finding F15, reported by the value oracle; the tie is evaluated modulo it
@@ -1546,6 +1653,14 @@ def run(chk):
         for fmt in FORMATS:
             for i in (byfmt[fmt][2:4] if chk.quick else byfmt[fmt][:nvar]):
                 hist.append(("sweep", [specs[i]], [paths[i]], sweep_history(specs[i], rng), None))
+        # the caller changes one of several series read in one call; the others are what the file holds
+        for fmt in FORMATS:
+            for i in (byfmt[fmt][:4] if chk.quick else byfmt[fmt][:nvar]):
+                for q in range(2 if chk.quick else 4):
+                    ops = touch_history(specs[i], rng)
+                    hist.append(("touch", [specs[i]], [paths[i]], restyle(rng, ops, 0.3) if q % 2 else ops, None))
+        for i in feature:
+            hist.append(("feature-touch", [specs[i]], [paths[i]], touch_history(specs[i], rng), None))
         # the files in another spelling: corner subsets (one cache state each), the sweep, every entry point
         for i in feature:
             subs = subset_histories(specs[i], True, rng)
